@@ -23,6 +23,11 @@
                    ULA candidates, unspecified c= line: webRTCConn.RemoteAddr() is nil), n no candidates,
                    6 IPv6 candidates only, m mDNS candidates only; x = u: an unordered, unreliable data
                    channel with an empty label.  The machine does not distinguish them from o and q.
+     Y<x>          the data channel opens and the handler dials a relay that misbehaves: x = r resets the TCP
+                   connection, e closes it without answering, h answers the upgrade with an HTTP error (the dial
+                   fails: LH _ HDialFail, as for q); x = z accepts the connection and never answers (nothing comes
+                   from the relay: the handler's 45 s handshake timer, LH _ HDialTimer, ends the dial); x = s completes
+                   the WebSocket handshake and then stalls (the session stays open like o, until c<i>/d<i>)
      A             /answer fails AFTER the client opened the data channel and the handler started
      c<i> d<i> -<i>  the handler of session i ends (client closes / relay closes / bare ret)
    result: per op  c<count>h<len(ch)>p<polls of the op, '.'-separated | ->, each poll being
@@ -40,7 +45,11 @@ Local Open Scope nat_scope.
 
 Definition pre : list label := [LGet; LGetSend].
 Definition nego : list label := pre ++ [LPollOffer; LRelayOk; LPcOk].
-Definition opened (sid : nat) : list label := nego ++ [LAnswerOk; LDcOpen; LH sid HClaim; LSelectOpen].
+(* the data channel is open, runSession has returned, the handler is dialling the relay *)
+Definition dialling (sid : nat) : list label := nego ++ [LAnswerOk; LDcOpen; LH sid HClaim; LSelectOpen].
+Definition opened (sid : nat) : list label := dialling sid ++ [LH sid HDialOk].
+Definition dial_failed (sid : nat) : list label := dialling sid ++ [LH sid HDialFail; LH sid HRecv].
+Definition dial_timed_out (sid : nat) : list label := dialling sid ++ [LH sid HDialTimer; LH sid HRecv].
 
 (* the handlers of the sessions ids end, one after the other *)
 Definition ends (ids : list nat) : list label := List.concat (map (fun i => [LH i HEnd; LH i HRecv]) ids).
@@ -62,9 +71,9 @@ Definition op_labels (v : version) (sid : nat) (t : bytes) : option (list label 
       else if existsb (N.eqb c) [116; 84]%N then Some (nego ++ [LAnswerOk; LSelectTimeout; LGiveUp; LClose; LMainRecv], true)
       else if (c =? 111)%N then Some (opened sid, true)
       else if (c =? 43)%N then Some (opened sid, false)
-      else if (c =? 113)%N then Some (opened sid ++ [LH sid HEnd; LH sid HRecv], true)
+      else if (c =? 113)%N then Some (dial_failed sid, true)
       else if (c =? 65)%N
-           then Some (nego ++ [LDcOpen; LH sid HClaim; LAnswerFail; LGiveUp] ++
+           then Some (nego ++ [LDcOpen; LH sid HClaim; LH sid HDialOk; LAnswerFail; LGiveUp] ++
                       match v with V0 => [LClose; LMainRecv] | V1 => [] end, true)
       else None
   | c :: d =>
@@ -73,7 +82,16 @@ Definition op_labels (v : version) (sid : nat) (t : bytes) : option (list label 
            another shape; the machine does not distinguish them *)
         match d with
         | [x] => if existsb (N.eqb x) [112; 108; 110; 54; 109; 117]%N
-                 then Some (if (c =? 79)%N then opened sid else opened sid ++ [LH sid HEnd; LH sid HRecv], true)
+                 then Some (if (c =? 79)%N then opened sid else dial_failed sid, true)
+                 else None
+        | _ => None
+        end
+      else if (c =? 89)%N then
+        (* Y<x>: what the relay does with the dial *)
+        match d with
+        | [x] => if existsb (N.eqb x) [114; 101; 104]%N then Some (dial_failed sid, true)
+                 else if (x =? 122)%N then Some (dial_timed_out sid, true)
+                 else if (x =? 115)%N then Some (opened sid, true)
                  else None
         | _ => None
         end
